@@ -44,7 +44,8 @@ Kinds == {"prepare", "connect", "disconnect", "request", "close1", "close2", "cl
 CloseKinds == {"close1", "close2", "close3"}
 CloseIdx(k) == CASE k = "close1" -> 1 [] k = "close2" -> 2 [] k = "close3" -> 3 [] OTHER -> 0
 NoCall == [api |-> "", n |-> 0, m |-> 0, rt |-> 0, wt |-> 0, pd |-> FALSE]
-Actors == {"acceptor", "task1", "task2", "task3", "task4", "task5", "task6", "closer1", "closer2", "closer3",
+Actors == {"acceptor", "task1", "task2", "task3", "task4", "task5", "task6", "task7", "task8", "task9", "task10", "task11", "task12",
+           "task13", "task14", "task15", "task16", "task17", "task18", "task19", "task20", "closer1", "closer2", "closer3",
            "reader", "flusher", "flusher2", "hup1", "hup2", "poller", "env", "user1", "user2"}
 
 Depth == o.started["request"] - o.ended["request"]
